@@ -65,7 +65,8 @@ pub fn run(ctx: &Arc<Ctx>) {
     let ds = scalar_alphabet(&n, ctx.seed, "c04d", 2);
     let ks = scalar_alphabet(&n, ctx.seed, "c04k", 1);
     let nbase = ctx.tier.pick(12usize, 60);
-    let ids: Vec<Option<String>> = vec![None, Some("alice@example.com".into()), Some("".into())];
+    // IDs are byte strings to the standard; the API takes &str, so non-ASCII IDs are multi-byte UTF-8
+    let ids: Vec<Option<String>> = vec![None, Some("alice@example.com".into()), Some("".into()), Some("用户甲".into())];
     let mut cases: Vec<Case> = Vec::new();
     let mut g = SplitMix::new(ctx.seed, "c04");
     let other_key = sm2::g_mul(&g.nonzero_below(&(&n - 1u32)));
@@ -102,6 +103,15 @@ pub fn run(ctx: &Arc<Ctx>) {
             cases.push(mk(sig_bytes(&r, v), &msg, &id, &pkh, &format!("s={}", name)));
         }
         cases.push(mk(sig_bytes(&r, &(&n - &r)), &msg, &id, &pkh, "s=n-r"));
+        // verification point at infinity AND r = e mod n: a verifier that converts O to affine (0, 0) sees (e + 0) = r
+        {
+            let one_plus_d_inv = (BigUint::one() + d).modpow(&(&n - 2u32), &n);
+            let rv = &e % &n;
+            let sv = (&n - (&rv * d % &n) * &one_plus_d_inv % &n) % &n;
+            if !rv.is_zero() && !sv.is_zero() && !((&rv + &sv) % &n).is_zero() {
+                cases.push(mk(sig_bytes(&rv, &sv), &msg, &id, &pkh, "sum-is-point-at-infinity/r=e"));
+            }
+        }
         // in-range (r, s) for which [s]G + [r+s]P is the point at infinity: s + t d = 0 with t = r + s
         for sv in [BigUint::one(), &n - 1u32, g.nonzero_below(&n)] {
             let dinv = d.modpow(&(&n - 2u32), &n);
@@ -129,6 +139,10 @@ pub fn run(ctx: &Arc<Ctx>) {
             Some(s) => Some(format!("{}x", s)),
         };
         cases.push(mk(valid.clone(), &msg, &id2, &pkh, "id-changed"));
+        if id.as_deref() == Some("用户甲") {
+            // same UTF-8 length, code points that agree in their low byte
+            cases.push(mk(valid.clone(), &msg, &Some("用户串".to_string()), &pkh, "id-changed"));
+        }
         if id.is_some() {
             cases.push(mk(valid.clone(), &msg, &None, &pkh, "id-default-instead"));
         }
